@@ -13,6 +13,8 @@ def H(pid, name, module, functions, bounds, tier="quick", timeout=600, mem_gb=16
     d = {"name": name, "module": ("verif_harness" if module == "crate" else module + "::verif_harness"), "tier": tier, "timeout": timeout, "mem_gb": mem_gb,
          "functions": functions, "bounds": bounds}
     d.update(kw)
+    if "module_override" in d:
+        d["module"] = d.pop("module_override")
     IDX[pid]["harnesses"].append(d)
 
 
@@ -182,16 +184,16 @@ H("C15", "c15_get_records", "cache::sync", ["Cache::get", "Cache::get_mut", "Rin
 # ---- C17
 IDX["C17"]["assumptions"] += [CHAN, ADDC, MREC, PARK, ARCD, "life-expectancy tracking: track_admission never inserts into start_ts (its insert is guarded by len > num_to_keep), so no entry is ever tracked and the tracked-eviction clause holds vacuously (observation O1)", "sets_dropped / gets_kept / gets_dropped are updated inside crossbeam select! arms that Kani cannot compile: by reading only"]
 H("C17", "c17_metrics_stripe_index", "metrics", ["MetricsInner::add (index arithmetic)"], "every 64-bit hash", timeout=300)
-H("C17", "c17_metrics_inner", "metrics", ["MetricsInner::new", "MetricsInner::add", "MetricsInner::get", "MetricsInner::ratio", "MetricsInner::clear"], "the real 11 x 256 striped atomics; two arbitrary counter types, hashes and deltas < 2^62", timeout=2400, mem_gb=20)
+H("C17", "c17_metrics_inner", "metrics", ["MetricsInner::new", "MetricsInner::add", "MetricsInner::get", "MetricsInner::ratio", "MetricsInner::clear"], "the real 11 x 256 striped atomics; two arbitrary counter types, hashes and deltas < 2^62", timeout=7200, mem_gb=40, tier="thorough", fs_array=64)
 H("C17", "c17_cache_counts", "cache::sync", ["CacheProcessor::handle_item", "CacheProcessor::track_admission", "LFUPolicy::add (contract)", "LFUPolicy::update", "LFUPolicy::remove", "SampledLFU::update (metrics arm)"], "metrics on (recorder); <= 1 resident; one New / Update / Delete item for an arbitrary key", timeout=1800)
 H("C17", "c15_get_records", "cache::sync", ["Cache::get", "Cache::get_mut", "Metrics::add (call sites)"], "hits + misses == lookups on the open cache (see C15)", timeout=1800)
 
 SCF = ["ShardedMap::try_cleanup", "ExpirationMap::try_cleanup", "ShardedMap::expiration", "ShardedMap::try_remove", "LFUPolicy::cost", "LFUPolicy::remove", "Time::is_expired", "Time::is_zero"]
 SCB = "one resident entry (with or without TTL, charged) that is filed properly, or not filed, plus optionally a stale listing of its key under an arbitrary bucket within 6 s of now; cleanup pass at an arbitrary instant <= 8 s later"
 IDX["C05"]["assumptions"] += [ARCD, MREC]
-H("C05", "c05_store_cleanup", "store", SCF, SCB, timeout=1800, mem_gb=20)
+H("C05", "c05_store_cleanup", "store", SCF, SCB, timeout=7200, mem_gb=44, tier="thorough")
 IDX["C04"]["assumptions"] += [ARCD, MREC]
-H("C04", "c04_store_cleanup", "store", SCF, SCB, timeout=1800, mem_gb=20, alias_of="c05_store_cleanup")
+H("C04", "c04_store_cleanup", "store", SCF, SCB, timeout=7200, mem_gb=44, tier="thorough", alias_of="c05_store_cleanup")
 
 WIRE = ["CacheProcessor::handle_insert_event", "CacheProcessor::handle_item(New)", "CacheProcessor::calculate_internal_cost", "CacheProcessor::track_admission", "CacheProcessor::on_evict", "CacheProcessor::prepare_evict", "CacheCallback::on_reject/on_evict (call sites)"]
 WIREB = "every outcome of the policy (arbitrary verdict; no list or a list of 0..2 arbitrary victims) and every answer of the store (each victim found or not); arbitrary key, conflict, cost, TTL; both ignore_internal_cost settings"
@@ -206,8 +208,47 @@ H("C16", "c16_new_wiring", "cache::sync", WIRE, WIREB, timeout=1800, cover_tags=
 H("C02", "c02_client_remove", "cache::sync", REM, "remove of an arbitrary key from an arbitrary quiescent state, then the queued Delete is processed: the key is unretrievable from the moment remove returns and stays so", timeout=1800, cover_tags=["client"], alias_of="c08_client_remove")
 H("C03", "c03_em_step_update", "ttl", ["ExpirationMap::try_update"], EMB + "; re-insert replaces the deadline: with a TTL the key is filed under the new deadline, without one it is no longer filed", timeout=1200, cover_tags=["update"], alias_of="c05_em_step_update")
 IDX["C03"]["assumptions"] += [ARCD, MREC]
-H("C03", "c03_store_cleanup", "store", SCF, SCB + "; an entry without TTL never becomes invisible because of time", timeout=1800, mem_gb=20, alias_of="c05_store_cleanup")
-H("C11", "c11_store_cleanup", "store", SCF, SCB + "; the stale listing models what clear() leaves behind in the expiry index", timeout=1800, mem_gb=20, alias_of="c05_store_cleanup")
+H("C03", "c03_store_cleanup", "store", SCF, SCB + "; an entry without TTL never becomes invisible because of time", timeout=7200, mem_gb=44, tier="thorough", alias_of="c05_store_cleanup")
+H("C11", "c11_store_cleanup", "store", SCF, SCB + "; the stale listing models what clear() leaves behind in the expiry index", timeout=7200, mem_gb=44, tier="thorough", alias_of="c05_store_cleanup")
+
+# ---- the real LFUPolicy::add (C07, C01, C04)
+UFA = "TinyLFU::estimate is replaced by an uninterpreted function (an arbitrary fixed popularity in [0,16] per key): the rule is stated in terms of the estimator's values and add does not modify the estimator; the estimator itself is decided by the C13 harnesses"
+ADDF = ["LFUPolicy::add (the real admission / eviction loop)", "SampledLFU::fill_sample", "SampledLFU::room_left", "SampledLFU::update", "SampledLFU::increment", "SampledLFU::remove"]
+ADDB = "arbitrary policy state satisfying I-P with <= %d residents in arbitrary map slots (every iteration order), charges <= 2^40, max_cost in [-2^40, 2^40] (over-budget pre-states included), arbitrary popularity per key, arbitrary incoming (key, cost); fewer than five residents, so 'all if fewer' is the sampling regime; victim lists with stale duplicates (D8) are allowed for"
+P("C07", [LOCKS, MREC, ARCD, UFA, "NOT decided: which five residents are sampled when there are five or more (needs >= 6 residents: outside the 3-slot map model)"])
+H("C07", "c07_add_rule_n2", "policy::sync", ADDF, ADDB % 2, timeout=2400, mem_gb=24)
+H("C07", "c07_add_rule_n3", "policy::sync", ADDF, ADDB % 3, timeout=7200, mem_gb=40, tier="thorough")
+IDX["C01"]["assumptions"] += [UFA, ARCD]
+H("C01", "c01_add_rule_n2", "policy::sync", ADDF, ADDB % 2 + "; asserts: every admission re-establishes total <= max_cost, oversize never admitted, I-P", timeout=2400, mem_gb=24, alias_of="c07_add_rule_n2")
+H("C01", "c01_add_rule_n3", "policy::sync", ADDF, ADDB % 3, timeout=7200, mem_gb=40, tier="thorough", alias_of="c07_add_rule_n3")
+H("C01", "c01_add_real_n2", "policy::sync", ADDF + ["TinyLFU::estimate", "CountMinSketch::estimate", "Bloom::contains"], "as c01_add_rule_n2 but with the REAL estimator (arbitrary 4x1-byte sketch, 64-bit doorkeeper)", timeout=7200, mem_gb=40, tier="thorough")
+IDX["C17"]["assumptions"] += [UFA]
+H("C17", "c17_add_metrics_n2", "policy::sync", ADDF + ["Metrics::add (call sites in add)"], ADDB % 2 + "; metrics on (recorder): eviction / admission / rejection counters of one add call", timeout=2400, mem_gb=24)
+H("C17", "c17_add_metrics_n3", "policy::sync", ADDF + ["Metrics::add (call sites in add)"], ADDB % 3 + "; metrics on (recorder)", timeout=7200, mem_gb=40, tier="thorough")
+IDX["C04"]["assumptions"] += [UFA]
+H("C04", "c04_room_admits", "policy::sync", ADDF, ADDB % 2 + "; asserts: with room a new key is always admitted and nothing is evicted", timeout=2400, mem_gb=24, alias_of="c07_add_rule_n2")
+
+# ---- C19 (async flavour, processor side only)
+P("C19", [LOCKS, CLOCK, MREC, ARCD, WIREA, "in c19_async_tick ExpirationMap::try_cleanup is replaced by a stand-in handing out an arbitrary single listing (see C05)", "async-channel endpoints are only created, never operated: the harness hands items to the real handle_insert_event / handle_cleanup_event directly",
+          "NOT decided: AsyncCache::{insert, remove, wait, clear, close}, the task loops, executors, wakers, polling order, futures::select!, async_io::Timer (Kani cannot execute them)"])
+AF = ["cache::async::CacheProcessor::handle_insert_event", "handle_item (macro instantiated for the async Item/processor)", "cache::async::CacheProcessor::handle_cleanup_event", "ShardedMap::try_cleanup_async", "AsyncLFUPolicy::{update, remove, cost, contains}"]
+H("C19", "c19_async_proc_update_delete", "cache::r#async", AF, "async processor, <= 1 resident, arbitrary key: one Update or Delete item; same assertions as the sync flavour", timeout=1800, features="sync,async", module_override="cache::r#async::verif_harness::both")
+H("C19", "c19_async_tick", "cache::r#async", AF, "async processor; one entry resident or not; the expiry index hands out nothing or one arbitrary listing (stand-in); cleanup tick <= 6 s later through handle_cleanup_event -> try_cleanup_async", timeout=3600, mem_gb=44, features="sync,async", module_override="cache::r#async::verif_harness::both")
+H("C19", "c19_async_new_wiring", "cache::r#async", AF, WIREB + "; async processor", timeout=1800, features="sync,async", module_override="cache::r#async::verif_harness::both")
+
+# the sweep through the async flavour (a plain loop; the sync try_cleanup's iterator chain needs > 40 GB and is thorough-only)
+for pid, nm in (("C05", "c05_async_cleanup"), ("C04", "c04_async_cleanup"), ("C11", "c11_async_cleanup"), ("C03", "c03_async_cleanup")):
+    H(pid, nm, "cache::r#async", AF, "async processor, <= 1 resident with or without TTL, cleanup tick <= 6 s later through try_cleanup_async: only elapsed TTLs are reclaimed (never an entry without TTL), overdue ones always", timeout=3600, mem_gb=44, features="sync,async", module_override="cache::r#async::verif_harness::both", alias_of="c19_async_tick")
+
+SWF = ["ShardedMap::try_cleanup (the sweep's per-key decision and removal)", "ShardedMap::expiration", "ShardedMap::try_remove", "LFUPolicy::cost", "LFUPolicy::remove", "Time::is_expired", "Time::is_zero"]
+SWB = "one entry (with or without TTL, charged) resident or not; the expiry index hands out nothing or ONE arbitrary listing (any key, any conflict: proper or stale, due or not); sweep at an arbitrary instant <= 6 s later"
+SWA = "in the sweep harnesses ExpirationMap::try_cleanup is replaced by a stand-in that hands out an arbitrary single listing: an over-approximation of the index's content; what the real try_cleanup hands out is decided by c05_em_cleanup_due"
+for pid, nm in (("C05", "c05_store_sweep"), ("C04", "c04_store_sweep"), ("C11", "c11_store_sweep"), ("C03", "c03_store_sweep")):
+    IDX[pid]["assumptions"].append(SWA)
+    if pid != "C05":
+        H(pid, nm, "store", SWF, SWB, timeout=7200, mem_gb=44, tier="thorough", alias_of="c05_store_sweep")
+    else:
+        H(pid, nm, "store", SWF, SWB, timeout=7200, mem_gb=44, tier="thorough")
 
 P("PROBE", [])
 H("PROBE", "probe_new_n0_nottl", "cache::sync", [], "probe", timeout=1200, mem_gb=20)
@@ -215,6 +256,7 @@ H("PROBE", "probe_new_n0_ttl", "cache::sync", [], "probe", timeout=1200, mem_gb=
 H("PROBE", "probe_new_n1_nottl", "cache::sync", [], "probe", timeout=1200, mem_gb=20)
 for i in "1234":
     H("PROBE", "probe_part" + i, "cache::sync", [], "probe", timeout=1200, mem_gb=12)
+H("PROBE", "c19_async_tick", "cache::r#async", [], "probe fs64", timeout=3000, mem_gb=28, features="sync,async", module_override="cache::r#async::verif_harness::both", fs_array=64)
 H("PROBE", "c06_proc_new", "cache::sync", [], "probe", timeout=3000, mem_gb=28, cover_tags=["new"])
 H("PROBE", "c06_proc_tick", "cache::sync", [], "probe", timeout=3000, mem_gb=28, cover_tags=["tick"])
 H("PROBE", "c07_add_rule_n2", "policy::sync", [], "probe", timeout=3000, mem_gb=28)
